@@ -311,13 +311,15 @@ class Lib:
             ex.assumed.add("CPD objects are opaque references; .variables / .cardinality are lists (sequence view), .state_names a dict, "
                            "get_evidence() / is_valid_cpd() pure functions of the object")
             return c
+        if attr == "variable":
+            return Scalar(z3.Function("cpd_variable", Opaque, Atom)(ref))
         if attr == "state_names":
             return DictV(Atom, "scalar", z3.Function("cpd_state_names_dom", Opaque, set_sort(Atom))(ref),
                          z3.Function("cpd_state_names_val", Opaque, z3.ArraySort(Atom, Opaque))(ref), vsort=Opaque)
         return None
 
     def scalar_attr(self, ex, v, attr, st):
-        if v.z.sort() == Opaque and v.pytype == "CPD":
+        if v.z.sort() == Opaque and v.pytype in ("CPD", None) and attr in ("variable", "variables", "cardinality", "state_names"):
             r = self.cpd_attr(ex, v, attr, st)
             if r is not None:
                 return r
